@@ -316,4 +316,41 @@ def method(it, robj, name):
                     it.raise_(TypeError, str(e))
             return FindAll(it, robj, data)
         return Builtin("findall", f)
+    if name == "search":
+        # search(data) is the first element of findall(data) (same leftmost-first order), or None
+        def g(data):
+            if not is_t(data):
+                try:
+                    return _re.compile(robj.pattern, getattr(robj, "flags", 0)).search(data)
+                except TypeError as e:
+                    it.raise_(TypeError, str(e))
+            fa = FindAll(it, robj, data)
+            if not it.truth(fa.vc_truth(it) if fa.lines is None else fa.vc_truth(it), "search-found"):
+                return None
+            return Match(it, fa)
+        return Builtin("search", g)
     raise Unsupported(f"regex method {name}")
+
+
+class Match:
+    """match object of search(): group(k) of the first match"""
+
+    def __init__(self, it, fa):
+        self.it, self.fa = it, fa
+        self.first = fa.match(0)
+
+    def vc_getattr(self, it, name):
+        if name == "group":
+            def grp(*ks):
+                if not ks:
+                    raise Unsupported("match.group() without a group number")
+                vals = []
+                for k in ks:
+                    if not isinstance(k, int) or k < 1 or k > self.fa.ngroups:
+                        raise Unsupported("match.group(k) outside the pattern's groups")
+                    vals.append(self.first if self.fa.ngroups == 1 else self.first[k - 1])
+                return vals[0] if len(vals) == 1 else tuple(vals)
+            return Builtin("group", grp)
+        if name == "groups":
+            return Builtin("groups", lambda: (self.first,) if self.fa.ngroups == 1 else tuple(self.first))
+        raise Unsupported(f"match.{name}")
